@@ -190,34 +190,6 @@ Example C11_translated_ex :
   C11_tie.fields_ok st /\ snd (bs_get st 13) <> OPanic pRt /\ snd (bs_set st 13 9) <> OPanic pRt.
 Proof. cbv zeta. split; [unfold C11_tie.fields_ok; cbn [blen vpl bits mask]; repeat split; try discriminate; reflexivity|]. split; vm_compute; discriminate. Qed.
 
-Print Assumptions C11_histories.
-Print Assumptions C11_get_set.
-Print Assumptions C11_set_raw_bits.
-Print Assumptions C11_swap.
-Print Assumptions C11_init_zero.
-Print Assumptions C11_init_raw.
-Print Assumptions C11_init_raw_wf.
-Print Assumptions C11_reject_unchanged.
-Print Assumptions C11_reject_iff.
-Print Assumptions C11_b0.
-Print Assumptions C11_unpack_pack.
-Print Assumptions C11_pack_unpack.
-Print Assumptions C11_raw.
-Print Assumptions C11_accept_back.
-Print Assumptions C11_wire.
-Print Assumptions C11_read_robust.
-Print Assumptions C11_read_total.
-Print Assumptions C11_size.
-Print Assumptions C11_size_refused_new.
-Print Assumptions C11_size_refused_fix.
-Print Assumptions C11_infer_refuted.
-Print Assumptions C11_infer_partial.
-Print Assumptions C11_calc_size_translated.
-Print Assumptions C11_calc_bits_translated.
-Print Assumptions C11_calc_index_translated.
-Print Assumptions C11_get_translated.
-Print Assumptions C11_set_translated.
-Print Assumptions C11_swap_translated.
 
 (* ---- phase 4: the constructor, Fix, ReadFrom, WriteTo, Len and Raw are TRANSLATED from level/bitstorage.go
    by tools/gotrans/c11.go on every run (Gen/C11gen.v: the struct as the record gbs - a slice field as visible
@@ -308,12 +280,5 @@ Theorem C11_wire_roundtrip_translated : forall (st : bstore) (sp : list Z) (dm :
     C11gen.c11_BitStorage_Raw (Some (C11_tie_io.inj st sp')) = C11gen.c11_BitStorage_Raw (Some (C11_tie_io.inj st sp)).
 Proof. exact C11_tie_io.wire_roundtrip_translated. Qed.
 
+
 Print Assumptions C11_calc_size_panics_translated.
-Print Assumptions C11_new_translated.
-Print Assumptions C11_fix_translated.
-Print Assumptions C11_read_translated.
-Print Assumptions C11_write_translated.
-Print Assumptions C11_write_nil_translated.
-Print Assumptions C11_accessors_translated.
-Print Assumptions C11_array_semantics_translated.
-Print Assumptions C11_wire_roundtrip_translated.
